@@ -128,7 +128,7 @@ def same_domain(kind, a, b):
     return any(lo <= a['resid'] <= hi and lo <= b['resid'] <= hi for lo, hi in regions)
 
 
-def check(shape, params, acc, sample=False):
+def check(shape, params, acc, sample=False, shared=None):
     import functools
     import numpy as np
     from vermouth.processors.apply_rubber_band import ApplyRubberBand
@@ -141,9 +141,14 @@ def check(shape, params, acc, sample=False):
     rot = ROTS[rot_idx] if rot_idx is not None else None
     mol, info = build(nres, sc_mask, graph_kind, geometry, order_kind, rot=rot, nan_on=nan_on)
     selector = functools.partial(selectors.proto_select_attribute_in, attribute='atomname', values=list(selection))
-    processor = ApplyRubberBand(lower_bound=lower, upper_bound=upper, decay_factor=decay_a, decay_power=decay_p,
-                                base_constant=BASE, minimum_force=minforce, res_min_dist=sep, bond_type=6,
-                                selector=selector, domain_criterion=domain_fn(domain))
+    if shared is not None and 'processor' in shared:
+        processor = shared['processor']       # ONE processor instance over several molecules
+    else:
+        processor = ApplyRubberBand(lower_bound=lower, upper_bound=upper, decay_factor=decay_a, decay_power=decay_p,
+                                    base_constant=BASE, minimum_force=minforce, res_min_dist=sep, bond_type=6,
+                                    selector=selector, domain_criterion=domain_fn(domain))
+        if shared is not None:
+            shared['processor'] = processor
     try:
         with common.LogCapture() as log:
             processor.run_molecule(mol)
@@ -250,10 +255,27 @@ def shapes(tier):
 PARAMS = list(itertools.product(DOMAINS, (0.0, 0.5), (0.9, 0.5), ((0, 1), (0.8, 1), (0.8, 2)), (0.0, 300.0), (0, 1, 2, 3)))
 
 
+def reuse_case(item, acc):
+    """One ApplyRubberBand instance applied to several different molecules in turn; every molecule judged on its own."""
+    shapes_seq, params = item
+    shared = {}
+    before = len(acc.violations)
+    for shape in shapes_seq:
+        check(shape, params, acc, shared=shared)
+    for idx in range(before, len(acc.violations)):
+        sig, desc, case = acc.violations[idx]
+        acc.violations[idx] = (sig + '(instance-reuse)', 'one processor instance over several molecules: ' + desc,
+                               {'reuse': common.jsonable(item)})
+
+
 def work(task):
     common.bind_repo()
     kind, items = task
     acc = Acc()
+    if kind == 'reuse':
+        for item in items:
+            reuse_case(item, acc)
+        return acc
     for n, shape in enumerate(items):
         if kind == 'full':
             for params in PARAMS:
@@ -292,11 +314,25 @@ def run(ctx):
     for part in common.pmap(work, [('extra', chunk) for chunk in common.chunked(extra, max(1, len(extra) // 64))]):
         acc += part
     ctx.layer('motions-orders-nan', acc)
+    pool = [(3, 0b111, 'linear', 'line', 'contiguous', ('BB', 'SC1'), None, None), (4, 0b0101, 'gap', 'L', 'bb-first', ('BB', 'SC1'), None, None),
+            (4, 0, 'crosslink', 'line', 'reversed', ('BB', 'SC1'), None, None), (3, 0b001, 'gap', 'L', 'contiguous', ('BB', 'SC1'), None, None)]
+    reuse_params = [p for p in PARAMS if p[1] == 0.0 and p[2] == 0.9 and p[3] == (0.8, 1) and p[4] == 0.0 and p[5] in (0, 1)]
+    items = [(seq, params) for n in (2, 3) for seq in itertools.permutations(pool, n) for params in reuse_params]
+    acc = Acc()
+    for part in common.pmap(work, [('reuse', chunk) for chunk in common.chunked(items, max(1, len(items) // 32))]):
+        acc += part
+    ctx.layer('instance-reuse', acc)
 
 
 def replay(case):
     common.bind_repo()
     acc = Acc()
+    if 'reuse' in case:
+        def shp(x):
+            return (x[0], x[1], x[2], x[3], x[4] if isinstance(x[4], str) else tuple(x[4]), tuple(x[5]), x[6], tuple(x[7]) if x[7] else None)
+        seq, p = case['reuse']
+        reuse_case((tuple(shp(x) for x in seq), (p[0], p[1], p[2], tuple(p[3]), p[4], p[5])), acc)
+        return [(s_, d) for s_, d, _ in acc.violations]
     s = case['shape']
     shape = (s[0], s[1], s[2], s[3], s[4] if isinstance(s[4], str) else tuple(s[4]), tuple(s[5]), s[6], tuple(s[7]) if s[7] else None)
     p = case['params']
